@@ -108,6 +108,27 @@ def observe(inputs):
     return json.loads(json.dumps(out))
 
 
+def observe_one(task):
+    """Observation of ONE probe input (run in a process that has done nothing else)."""
+    inputs, sec, i = task
+    one = {"vectors": [], "rh": [], "texts": [], "dialogues": []}
+    one[sec] = [inputs[sec][i]]
+    return sec, i, observe(one)[sec][0]
+
+
+def isolated_baseline(inputs, workers=16):
+    """Every probe input observed in its OWN freshly forked child of a pristine parent
+    (library imported, nothing constructed yet): a baseline without any history at all."""
+    import multiprocessing
+    tasks = [(inputs, sec, i) for sec in ("vectors", "rh", "texts", "dialogues") for i in range(len(inputs[sec]))]
+    out = {sec: [None] * len(inputs[sec]) for sec in ("vectors", "rh", "texts", "dialogues")}
+    ctx = multiprocessing.get_context("fork")
+    with ctx.Pool(workers, maxtasksperchild=1) as pool:
+        for sec, i, rec in pool.imap_unordered(observe_one, tasks, chunksize=1):
+            out[sec][i] = rec
+    return out
+
+
 def diff(a, b):
     """First differing (section, index) between two observations, or None."""
     for sec in ("vectors", "rh", "texts", "dialogues"):
